@@ -406,13 +406,14 @@ pub fn run() {
         ctx.finish();
     }
     let quick = ctx.quick();
-    let depth = if quick { 7 } else { 9 };
+    let depth = if quick { 7 } else { 10 };
     let found = std::sync::Mutex::new(BTreeMap::<String, (u64, Vec<(String, String)>)>::new());
     let init = Node { m: Machine::new(MachineConfig::default()), hist: vec![], clean: true };
     let _ = &init.hist;
     let checked = std::sync::atomic::AtomicU64::new(0);
     let node_check = |n: &Node| {
         checked.fetch_add(1, std::sync::atomic::Ordering::Relaxed);
+        mc::watch::progress(|| hist_line(&n.hist, "check"));
         let r = mc::catch(|| check_node(n, &pr));
         let list = match r {
             Ok(l) => l,
@@ -432,6 +433,7 @@ pub fn run() {
         }
     };
     node_check(&init);
+    mc::watch::idle();
     let mut stats = mc::BfsStats::default();
     // the per-node checks run on every distinct state: a second pass so the expensive part is parallel
     // (bfs() visits sequentially); re-enumerate distinct nodes level by level
@@ -447,6 +449,7 @@ pub fn run() {
                     .filter_map(|e| {
                         let mut c = n.clone();
                         c.hist.push(*e);
+                        mc::watch::progress(|| hist_line(&c.hist, "none"));
                         if matches!(e, Ev::Interrupt | Ev::Load(1) | Ev::Load(2)) {
                             c.clean = false;
                         }
